@@ -3,7 +3,7 @@ from props import S
 CFG = {
     "properties_file": "Properties/C18.v",
     "corr_files": ["Corr/RateLimitCorr.v", "Corr/C18.v"],
-    "streams": [S("C18", "drive_ratelimit", 320, 20000), S("C18ns", "drive_ratelimit", 200, 12000)],
+    "streams": [S("C18", "drive_ratelimit", 320, 20000), S("C18ns", "drive_ratelimit", 160, 12000)],
     "rule": "one limiter object of the real code (RateLimiter built by NewRateLimiter, bare PerIPLimiter, bare TokenBucket) "
             "driven on the virtual clock by 8-70 calls (AllowRequest / AllowOperation / CleanupConnection; 1-4 addresses, "
             "1-3 connections, all four operation types; rates {0,1,2,3,10,1000} + dyadic fractions, bursts {0,1,2,5,100}, "
